@@ -1,6 +1,7 @@
 import Proofs.ConfModel
 import Proofs.KernelArr
 import Proofs.CgaObj
+import Proofs.Quat
 
 /-! # C12 — g3c fast kernels equal their definitions; primitives are exact (algebraic core)
 
@@ -112,5 +113,45 @@ theorem sphere_radius (r : Rel x ep en qx) (ρ : ℚ) :
     dualSphere x ep en qx ρ * dualSphere x ep en qx ρ = (2 * ρ) • (1 : A)
     ∧ (1/2 : ℚ) • (dualSphere x ep en qx ρ * einf ep en + einf ep en * dualSphere x ep en qx ρ) = -1 :=
   ⟨dualSphere_sq r ρ, dualSphere_dot_einf r ρ⟩
+
+
+/-! ### g3 conversions (clifford/tools/g3): quaternion ↔ rotation matrix ↔ rotor -/
+section Conversions
+open Quat Ship
+
+/-- `quaternion_to_matrix(q)` is orthogonal for a unit quaternion: `M Mᵀ = I + 4(|q|²−1)(|u|² I − u uᵀ)` (any field) -/
+theorem quaternion_matrix_rows {K : Type} [Field K] (w x y z : K) (i j : Fin 3) :
+    mat w x y z i 0 * mat w x y z j 0 + mat w x y z i 1 * mat w x y z j 1 + mat w x y z i 2 * mat w x y z j 2
+      = (if i = j then 1 else 0) + 4 * (w^2 + x^2 + y^2 + z^2 - 1) *
+          ((if i = j then x^2 + y^2 + z^2 else 0) - ![x, y, z] i * ![x, y, z] j) := mat_rows w x y z i j
+
+/-- **round trip** over ℝ with the real square root and the code's branch selection: for every unit quaternion
+    `rotation_matrix_to_quaternion(quaternion_to_matrix(q)) = q` or `= −q` -/
+theorem matrix_quaternion_round_trip (w x y z : ℝ) (hq : w^2 + x^2 + y^2 + z^2 = 1) :
+    m2q (mat w x y z) = (w, x, y, z) ∨ m2q (mat w x y z) = (-w, -x, -y, -z) := m2q_mat w x y z hq
+
+variable {e : Fin 5 → A} {sig : Fin 5 → ℚ}
+
+/-- the rotor of a quaternion acts on vectors as the quaternion's matrix does: `R v ~R = M(q) v + (|q|² − 1) v` -/
+theorem rotor_acts_as_matrix (G : Gens e sig) (h0 : sig 0 = 1) (h1 : sig 1 = 1) (h2 : sig 2 = 1) (w x y z a b c : ℚ) :
+    toRotor e w x y z * vec3 e a b c * toRotorRev e w x y z
+      = vec3 e (mat w x y z 0 0 * a + mat w x y z 0 1 * b + mat w x y z 0 2 * c)
+               (mat w x y z 1 0 * a + mat w x y z 1 1 * b + mat w x y z 1 2 * c)
+               (mat w x y z 2 0 * a + mat w x y z 2 1 * b + mat w x y z 2 2 * c)
+        + (w^2 + x^2 + y^2 + z^2 - 1) • vec3 e a b c := Quat.rotor_acts_as_matrix G h0 h1 h2 w x y z a b c
+
+/-- `R ~R = |q|²`: unit quaternions give unit rotors -/
+theorem quaternion_rotor_norm (G : Gens e sig) (h0 : sig 0 = 1) (h1 : sig 1 = 1) (h2 : sig 2 = 1) (w x y z : ℚ) :
+    toRotor e w x y z * toRotorRev e w x y z = (w^2 + x^2 + y^2 + z^2) • (1 : A) := rotor_norm G h0 h1 h2 w x y z
+
+/-- `rotor_to_quaternion(quaternion_to_rotor(q)) = q`: `e123 R = w e123 + (x e1 + y e2 + z e3)`, whose vector coefficients are read -/
+theorem rotor_quaternion_round_trip (G : Gens e sig) (h0 : sig 0 = 1) (h1 : sig 1 = 1) (h2 : sig 2 = 1) (w x y z : ℚ) :
+    I3 e * toRotor e w x y z = w • I3 e + vec3 e x y z := rotor_to_quaternion_inverts G h0 h1 h2 w x y z
+
+/-- non-vacuity: g3c's model algebra has such generators -/
+example : Gens (A := Cl 5 (fun i => ([1, 1, 1, 1, -1] : List ℚ).getD i 0)) (fun i : Fin 5 => Cl.e i.val i.isLt)
+    (fun i => ([1, 1, 1, 1, -1] : List ℚ).getD i.val 0) := model_gens 5 _
+
+end Conversions
 
 end C12
